@@ -218,6 +218,10 @@ where
 
         let (edge_values, remaining) = data.as_slice().split_at(E);
         let numeric_values = &remaining[..N];
+        // The entry lock is what keeps the borrowed edges alive until they are
+        // cloned below
+        #[cfg(oxidd_verif)]
+        oxidd_core::verif::yield_point(oxidd_core::verif::site::CACHE_GET_CLONE);
         Some((
             // SAFETY: The next `E` values in `data` are edges
             std::array::from_fn(|i| {
@@ -405,6 +409,15 @@ where
         {
             return None;
         }
+        #[cfg(oxidd_verif)]
+        {
+            use oxidd_core::verif::{self, site};
+            verif::yield_point(site::CACHE_GET);
+            // a lookup may always miss (e.g., because `try_lock()` fails)
+            if verif::buggify(site::BUGGIFY_CACHE_MISS) {
+                return None;
+            }
+        }
         self.bucket(operator, operands)
             .try_lock()?
             .get(manager, operator, operands)
@@ -428,6 +441,16 @@ where
         {
             return;
         }
+        #[cfg(oxidd_verif)]
+        {
+            use oxidd_core::verif::{self, site};
+            verif::yield_point(site::CACHE_ADD);
+            // an insertion may always be dropped (e.g., because `try_lock()`
+            // fails)
+            if verif::buggify(site::BUGGIFY_CACHE_DROP_INSERT) {
+                return;
+            }
+        }
         if let Some(mut entry) = self.bucket(operator, operands).try_lock() {
             entry.set(operator, operands, values);
         }
@@ -450,6 +473,8 @@ where
         // FIXME: We should probably do something smarter than clearing the
         // entire cache.
         for entry in &*self.0 {
+            #[cfg(oxidd_verif)]
+            oxidd_core::verif::yield_point(oxidd_core::verif::site::CACHE_PRE_GC);
             let mut entry = entry.lock();
             entry.clear();
             // Don't unlock!
@@ -459,6 +484,8 @@ where
 
     unsafe fn post_gc(&self, _manager: &M) {
         for entry in &*self.0 {
+            #[cfg(oxidd_verif)]
+            oxidd_core::verif::yield_point(oxidd_core::verif::site::CACHE_POST_GC);
             // SAFETY: `post_gc()` is called at most once after `pre_gc()` and
             // reordering. Hence, the mutex is locked. The cache is empty, so
             // we don't risk that a call to `get()` returns an invalid edge.
